@@ -27,7 +27,7 @@ META = {
     "technique": "Coq proof of selection irrelevance over the finite feature lattice (Threefish: corollary of C09_unroll_irrelevant; back-end selections: reduction to back-end equivalence, the statement of C03); buildability observed with cargo check on every lattice point; result equality across configurations with a differential harness; lattice of the Cargo.toml files kept equal to the lattice of the model by a generated Coq file",
     "level_text": "PARTIAL by design. Machine-checked: for every crate, every point of its feature lattice and every environment (CPU level, compile-time target level, unified ppv-lite86 features), the implementation selected at that point computes the same function as the one selected at the default point - unconditionally for Threefish (loop = unrolled, from C09), Groestl (all three modules are the same source function), the no-op features and c2-chacha's rustcrypto_api; for the ppv-lite86 back-end selection it is proved from the hypothesis that all back ends compute the same function (the C03 statement), named ..._partial. Observed, not proved: rustc accepts every point (cargo check per point) and the built configurations give identical results on the battery. Added after an independent audit: the hypothesis of the _partial theorems is discharged with C03 for the whole block functions - C20_chacha_refill_wide/narrow_feature_irrelevant, C20_blake_put_block32/64_feature_irrelevant, C20_blake_finalize_feature_irrelevant, C20_jh_f8_feature_irrelevant (hypothesis-free; the two sides may also differ in build profile); groestl-aesni is modelled with its three entry points aes / ssse3 / sse2, the std autodetect and the no-std re-export chain (Model/FeaturesGroestl.v): C20_groestl_entry_points_are_shared_body, C20_groestl_point_selection_irrelevant, C20_groestl_std_panics_iff(_no_sse2) (the autodetect arm panics exactly when SSE2 is not detected), C20_groestl_not_built_iff, C20_groestl_digests_eq_spec; the older C20_groestl_selection_irrelevant is about a definition that ignores the module and has no content of its own. Open: ppv-lite86's generic-vs-x86_64 module choice as a statement about the crate (arch_irrelevant). Trusted: code generation under #[target_feature].",
     "level_note": "Trusted: Coq kernel+VM; the selection functions in Model/Features.v are a hand transcription of the cfg attributes (tied only by the lattice sync test and the cross-configuration battery); cargo/rustc as the oracle for buildability, on this toolchain and x86-64 only; the harness. No axioms.",
-    "rule": "inputs = (crate, feature set) for every subset of the features each crate declares (named features and implicit optional-dependency features; `default` is the subset it expands to); cargo check per point; battery = fixed length sweep + structured/random messages/keys from the seed per algorithm, identical in every configuration; two configurations are built and run with static target features (-C target-feature): no-std with the full host set (+avx2,+aes) and no-std with +ssse3 WITHOUT +aes (groestl-aesni's `mod ssse3` and its ssse3-and-not-aes cfg arms, ppv-lite86's static SSSE3 machine), plus groestl-aesni alone no-std with plain SSE2 (`mod sse2`); distinct = distinct (configuration, section, case); non-trivial = configuration differs from the default build in at least one resolved feature",
+    "rule": "inputs = (crate, feature set) for every subset of the features each crate declares (named features and implicit optional-dependency features; `default` is the subset it expands to); cargo check per point; battery = fixed length sweep + structured/random messages/keys from the seed per algorithm, identical in every configuration; three configurations are built and run with static target features (-C target-feature): no-std with the full host set (+avx2,+aes) no-std with +ssse3,+sse4.1,+avx WITHOUT +avx2 (the AVX arm of the static dispatch macros) and no-std with +ssse3 WITHOUT +aes (groestl-aesni's `mod ssse3` and its ssse3-and-not-aes cfg arms, ppv-lite86's static SSSE3 machine), plus groestl-aesni alone no-std with plain SSE2 (`mod sse2`); distinct = distinct (configuration, section, case); non-trivial = configuration differs from the default build in at least one resolved feature",
     "assumptions": ["stable toolchain found on PATH, x86-64 target with default target features (sse2)", "little-endian host"],
 }
 
@@ -417,6 +417,12 @@ def configurations(crates, quick):
         cfgs.append({"label": "groestl-nostd/ct-ssse3-without-aes", "std": False, "tf": "+ssse3",
                      "points": {k: (None if k in ("blake", "jh") else []) for k in DEP}})
     cfgs.append({"label": "groestl-nostd/ct-plain-sse2", "std": False, "points": dict(groestl_only)})
+    # Added after seeds round 4 (C20-8): the static (no-std) arms of dispatch! / dispatch_light256! have five levels; avx2,
+    # ssse3 and sse2 were run, the AVX-without-AVX2 arm (and with it the 128-bit AVX machine selected at compile time) was
+    # only `cargo check`ed. Appended last: the lanes of the older configurations do not move.
+    if "+avx" in have and "+ssse3" in have:
+        cfgs.append({"label": "all-crates-no-features/ct-avx-without-avx2", "std": False, "tf": "+ssse3,+sse4.1,+avx",
+                     "points": {k: [] for k in DEP}})
     if quick:
         return cfgs
     # family A: every crate present, crate k at its point number i mod |lattice_k|
